@@ -517,6 +517,9 @@ class The(ResultQuantifier[T]):
         finally:
             # also when the evaluation raised, otherwise the next evaluation starts from stale state.
             self._reset_cache_()
+            # which variables an expression has to provide was memoised for THIS query; an expression object that is
+            # also part of another query has to provide other variables there.
+            self._forget_memoised_required_variables_()
         return result
 
     def _evaluate__(self, sources: Optional[Dict[int, HashedValue]] = None, yield_when_false: bool = False) -> Iterable[Dict[int, HashedValue]]:
@@ -573,6 +576,9 @@ class An(ResultQuantifier[T]):
             # also when the consumer stops early or user code raised, otherwise the next evaluation starts from
             # the duplicate tracking state of the abandoned one.
             self._reset_cache_()
+            # which variables an expression has to provide was memoised for THIS query; an expression object that is
+            # also part of another query has to provide other variables there.
+            self._forget_memoised_required_variables_()
 
     def _evaluate__(self, sources: Optional[Dict[int, HashedValue]] = None, yield_when_false: bool = False) -> Iterable[T]:
         sources = sources or {}
